@@ -3,6 +3,7 @@ package main
 // Contract stubs for the standard library and logging.
 
 import (
+	gopath "path"
 	"fmt"
 	"math/big"
 	"time"
@@ -188,6 +189,74 @@ func (e *Engine) registerStdlib() {
 			}
 			return b
 		}))
+	})
+	r("path.Clean", func(c *CallCtx) []Outcome {
+		// exact on constants; on a symbolic string exact for the two shapes that matter for request
+		// paths -- already clean rooted paths (result: the path itself) and a clean rooted path
+		// followed by one more '/' (result: without it); any other shape ends that path as unmodelled
+		s := c.args[0].(*Str)
+		if cs, ok := s.Const(); ok {
+			return c.ret(constStr(gopath.Clean(cs)))
+		}
+		st := c.st
+		f := st.flat(s)
+		by := func(i int) *Term { return pieceByte(f, I(int64(i))) }
+		isSlash := func(i int) *Term { return Eq(by(i), I('/')) }
+		// cleanUpTo(n): bytes [0,n) form a clean rooted path (n >= 1)
+		cleanN := func(n *Term) *Term {
+			cs := []*Term{Ge(n, I(1)), isSlash(0)}
+			for i := 0; i < f.cap; i++ {
+				in := Lt(I(int64(i)), n)
+				last := Eq(I(int64(i+1)), n)
+				// no empty segment, no trailing slash (except the root itself)
+				if i+1 < f.cap {
+					cs = append(cs, Implies(And(in, isSlash(i), Lt(I(int64(i+1)), n)), Not(isSlash(i+1))))
+				}
+				if i > 0 {
+					cs = append(cs, Implies(And(in, last), Not(isSlash(i))))
+				}
+				// no "." or ".." segment
+				if i > 0 {
+					dot := Eq(by(i), I('.'))
+					endsAfter1 := Eq(I(int64(i+1)), n)
+					if i+1 < f.cap {
+						endsAfter1 = Or(endsAfter1, And(Lt(I(int64(i+1)), n), isSlash(i+1)))
+					}
+					cs = append(cs, Implies(And(in, isSlash(i-1), dot), Not(endsAfter1)))
+					if i+1 < f.cap {
+						dot2 := And(dot, Lt(I(int64(i+1)), n), Eq(by(i+1), I('.')))
+						endsAfter2 := Eq(I(int64(i+2)), n)
+						if i+2 < f.cap {
+							endsAfter2 = Or(endsAfter2, And(Lt(I(int64(i+2)), n), isSlash(i+2)))
+						}
+						cs = append(cs, Implies(And(in, isSlash(i-1), dot2), Not(endsAfter2)))
+					}
+				}
+			}
+			return And(cs...)
+		}
+		clean := cleanN(f.n)
+		var trailing *Term = tFalse
+		if f.cap >= 3 {
+			var lastSlash []*Term
+			for i := 2; i < f.cap; i++ {
+				lastSlash = append(lastSlash, And(Eq(f.n, I(int64(i+1))), isSlash(i)))
+			}
+			trailing = And(Or(lastSlash...), cleanN(Sub(f.n, I(1))), Ge(f.n, I(3)))
+		}
+		sts := c.e.forkMany(st, []*Term{clean, And(Not(clean), trailing), And(Not(clean), Not(trailing))})
+		var outs []Outcome
+		if sts[0] != nil {
+			outs = append(outs, Outcome{st: sts[0], val: s})
+		}
+		if sts[1] != nil {
+			outs = append(outs, Outcome{st: sts[1], val: sts[1].sSlice(s, I(0), Sub(f.n, I(1)))})
+		}
+		if sts[2] != nil {
+			c.e.inconclusive("UNMODELLED path.Clean on a symbolic path that is neither clean nor clean plus a trailing slash")
+			c.e.endPath(sts[2])
+		}
+		return outs
 	})
 	r("strings.EqualFold", func(c *CallCtx) []Outcome {
 		a, b := c.args[0].(*Str), c.args[1].(*Str)
